@@ -110,8 +110,8 @@ CHECKS = {
   design="DESIGN.md §6 C18"),
  "C14": dict(
   category="model_checking",
-  text="Exhaustive enumeration of API call sequences (quick: depth 2, thorough: depth 3, plus structured depth-4/5 histories around sleep/re-initialisation) over the property's call alphabet x interrupt outcomes, with a fault injected at EVERY bus event (SPI transfer, BUSY wait, DIO wait, reset, RF switch) of the last call and a dropped future at the droppable wait, on the real LoRa<Sx126x>, LoRa<Sx127x> and LoRa<Lr1110> over a scripted bus, and on all three again through the LoRaWAN radio adapter (LorawanRadio: tx / setup_rx / rx_single / rx_continuous / low_power, one level deeper). PhyTrace.tla holds an abstract SX126x, an abstract SX1276 and an abstract LR1110 that are stepped by decoding the raw SPI bytes actually sent, and checks the four clauses: wrong-mode calls refused without bus traffic, never commanded asleep without wake-up, everything reprogrammed after cold start before TX/RX/CAD starts, standby + driver knows after failure. Injected-fault violations of clause 4 are an open finding (S23), listed per call; timeouts and interrupt errors are held to clause 4 strictly. Design level and specification -> implementation: MCPhy.tla models the driver's bookkeeping next to the chip for all call sequences (clauses as invariants) and TLC generates one call sequence per transition of that model, each followed by a probe transmission, executed on the real SX1262, SX1276 and LR1110 drivers. Open findings: S23 (per call) and S37 (tx() accepted straight after continuous_wave()).",
-  note="Trusted: the abstract SX126x, SX1276 and LR1110 of PhyTrace.tla (datasheet-level, small). Covered: SX1262 (DC-DC, TCXO), SX1276 (TCXO, PA_BOOST) and LR1110 (DC-DC, TCXO, RF-switch DIOs, HP PA), directly and behind the LoRaWAN radio adapter. NOT covered by this check: SX1272, STM32WL variants, call sequences deeper than the stated bounds.",
+  text="Exhaustive enumeration of API call sequences (quick: depth 2, thorough: depth 3, plus structured depth-4/5 histories around sleep/re-initialisation) over the property's call alphabet x interrupt outcomes, with a fault injected at EVERY bus event (SPI transfer, BUSY wait, DIO wait, reset, RF switch) of the last call and a dropped future at the droppable wait, on the real LoRa<Sx126x>, LoRa<Sx127x> and LoRa<Lr1110> over a scripted bus, and on all three again through the LoRaWAN radio adapter (LorawanRadio: tx / setup_rx / rx_single / rx_continuous / low_power, one level deeper). PhyTrace.tla holds an abstract SX126x, an abstract SX1276 and an abstract LR1110 that are stepped by decoding the raw SPI bytes actually sent, and checks the four clauses: wrong-mode calls refused without bus traffic, never commanded asleep without wake-up, everything reprogrammed after cold start before TX/RX/CAD starts, standby + driver knows after failure. Injected-fault violations of clause 4 are an open finding (S23), listed per call; timeouts and interrupt errors are held to clause 4 strictly. Design level and specification -> implementation: MCPhy.tla models the driver's bookkeeping next to the chip for all call sequences (clauses as invariants) and TLC generates one call sequence per transition of that model, each followed by a probe transmission, executed on the real SX1262, SX1276, SX1272 and LR1110 drivers. Open findings: S23 (per call) and S37 (tx() accepted straight after continuous_wave()).",
+  note="Trusted: the abstract SX126x, SX1276 and LR1110 of PhyTrace.tla (datasheet-level, small). Covered: SX1262 (DC-DC, TCXO), SX1276 and SX1272 (TCXO, PA_BOOST) and LR1110 (DC-DC, TCXO, RF-switch DIOs, HP PA), directly and behind the LoRaWAN radio adapter. NOT covered by this check: SX1261 / STM32WL variants (they differ from the SX1262 in PA tables and the DIO2 switch option only), call sequences deeper than the stated bounds.",
   technique="explicit TLA+ chip model + clauses (PhyTrace.tla) checked with TLC on exhaustively enumerated call/outcome/fault sequences executed on the real driver; MCPhy.tla model checking and TLC-generated call sequences replayed into the implementation",
   design="DESIGN.md §6 C14"),
  "C15": dict(
